@@ -387,5 +387,242 @@ theorem cascade_glyph (T : Tables) (gs : Layer) (fuel : Nat) (a : String) (ns : 
   rw [hj] at h
   exact h _ (glyphDeliv_self hy)
 
+/-! ### looking hosts up after one glyph record was replaced -/
+
+theorem find?_set_congr (gs : Layer) (h : String) (g g' : GlyphS) (pred : GlyphS → Bool)
+    (hn : (AL.keys gs).Nodup) (hg : AL.get? gs h = some g) (hp : pred g' = pred g) :
+    (AL.set gs h g').find? (fun p => pred p.2) =
+      (gs.find? (fun p => pred p.2)).map (fun p => if p.1 = h then (h, g') else p) := by
+  induction gs with
+  | nil => simp at hg
+  | cons q r ih =>
+    obtain ⟨k', v'⟩ := q
+    simp only [AL.keys, List.map_cons, List.nodup_cons] at hn
+    by_cases h1 : k' = h
+    · subst h1
+      simp only [AL.get?_cons, if_true, Option.some.injEq] at hg
+      subst hg
+      simp only [AL.set, if_true, List.find?_cons, hp]
+      cases hpv : pred v' with
+      | true => simp
+      | false =>
+        simp only
+        -- no later entry has key k'
+        have : ∀ p, p ∈ r → p.1 ≠ k' := by
+          intro p hp' e
+          exact hn.1 (by rw [← e]; exact List.mem_map_of_mem (f := Prod.fst) hp')
+        cases hf : r.find? (fun p => pred p.2) with
+        | none => simp
+        | some p =>
+          have := this p (List.mem_of_find?_eq_some hf)
+          simp [this]
+    · simp only [AL.get?_cons, h1, if_false] at hg
+      simp only [AL.set, h1, if_false, List.find?_cons]
+      cases hpv : pred v' with
+      | true => simp [h1]
+      | false =>
+        simp only
+        exact ih hn.2 hg
+
+theorem get?_updGlyph (gs : Layer) (h : String) (fn : GlyphS → GlyphS) (x : String) :
+    AL.get? (updGlyph gs h fn) x = if h = x then (AL.get? gs h).map fn else AL.get? gs x := by
+  unfold updGlyph
+  cases hg : AL.get? gs h with
+  | none =>
+    by_cases e : h = x
+    · subst e; simp [hg]
+    · simp [e]
+  | some g =>
+    simp only [Option.map_some]
+    rw [AL.get?_set]
+
+theorem updGlyph_eq_set {gs : Layer} {h : String} {g : GlyphS} (fn : GlyphS → GlyphS)
+    (hg : AL.get? gs h = some g) : updGlyph gs h fn = AL.set gs h (fn g) := by
+  unfold updGlyph; rw [hg]
+
+/-! ### views after one glyph record was replaced -/
+
+theorem outline_set (n : Nat) (gs : Layer) (h : String) (g g' : GlyphS) (hg : AL.get? gs h = some g) (c : String)
+    (hc : (g'.contours = g.contours ∧ g'.comps = g.comps) ∨ ∀ m, ¬ ReadsN (AL.set gs h g') m c h) :
+    outline n gs c = outline n (AL.set gs h g') c := by
+  apply outline_agree
+  intro m b hr
+  by_cases e : h = b
+  · subst e
+    rcases hc with hc | hc
+    · simp [hg, hc.1, hc.2]
+    · exact absurd hr (hc m)
+  · rw [AL.get?_set_ne _ _ _ _ e]
+
+theorem compHead_set (n : Nat) (gs : Layer) (h : String) (g g' : GlyphS) (hg : AL.get? gs h = some g) (k : CompS)
+    (hc : (g'.contours = g.contours ∧ g'.comps = g.comps) ∨
+      ∀ c m, k.base = some c → ¬ ReadsN (AL.set gs h g') m c h) :
+    compHead (outline n gs) k = compHead (outline n (AL.set gs h g')) k := by
+  unfold compHead
+  cases hb : k.base with
+  | none => rfl
+  | some c =>
+    simp only
+    rw [outline_set n gs h g g' hg c]
+    rcases hc with hc | hc
+    · exact Or.inl hc
+    · exact Or.inr (fun m => hc c m hb)
+
+section ViewFrame
+variable {V : Type}
+
+theorem view_glyph_other (T : Tables) (w w1 : World V) (h : String) (g g' : GlyphS)
+    (hg : AL.get? w.glyphs h = some g) (hgs : w1.glyphs = AL.set w.glyphs h g') (hf : w1.fuel = w.fuel)
+    (x : String) (hx : h ≠ x) (nm : String)
+    (hno : (g'.contours = g.contours ∧ g'.comps = g.comps) ∨
+      ∀ gx k c m, AL.get? w1.glyphs x = some gx → k ∈ gx.comps → k.base = some c → ¬ ReadsN w1.glyphs m c h) :
+    viewOf T w1 (.glyph x) nm = viewOf T w (.glyph x) nm := by
+  unfold viewOf
+  simp only [hgs, hf]
+  rw [AL.get?_set_ne _ _ _ _ hx]
+  cases hgx : AL.get? w.glyphs x with
+  | none => rfl
+  | some gx =>
+    simp only [Option.map_some, Option.getD_some]
+    have key : glyphOutline w.fuel (AL.set w.glyphs h g') gx = glyphOutline w.fuel w.glyphs gx := by
+      unfold glyphOutline bodyWith
+      congr 3
+      apply flatMap_congr'
+      intro k hk
+      symm
+      apply compHead_set _ _ _ _ _ hg
+      rcases hno with hno | hno
+      · exact Or.inl hno
+      · refine Or.inr (fun c m hb => ?_)
+        have := hno gx k c m (by rw [hgs, AL.get?_set_ne _ _ _ _ hx]; exact hgx) hk hb
+        rw [hgs] at this; exact this
+    unfold glyphView
+    rw [key]
+
+theorem view_comp_same (T : Tables) (w w1 : World V) (h : String) (g g' : GlyphS)
+    (hg : AL.get? w.glyphs h = some g) (hgs : w1.glyphs = AL.set w.glyphs h g') (hf : w1.fuel = w.fuel)
+    (kid : Nat) (k : CompS) (hk1 : findComp w1 kid = some k) (hk : findComp w kid = some k) (nm : String)
+    (hno : (g'.contours = g.contours ∧ g'.comps = g.comps) ∨
+      ∀ c m, k.base = some c → ¬ ReadsN w1.glyphs m c h) :
+    viewOf T w1 (.comp kid) nm = viewOf T w (.comp kid) nm := by
+  unfold viewOf
+  simp only [hk1, hk, Option.map_some, Option.getD_some, hf]
+  unfold compView compToks
+  rw [hgs]
+  rw [← compHead_set _ _ _ _ _ hg]
+  rw [hgs] at hno; exact hno
+
+/-- an attached component's record sits in the component list of a glyph of the layer -/
+theorem findComp_attached (w : World V) (hn : (AL.keys w.glyphs).Nodup) (kid : Nat) (k : CompS)
+    (ha : attached w (.comp kid) = true) (hk : findComp w kid = some k) :
+    ∃ x gx, AL.get? w.glyphs x = some gx ∧ k ∈ gx.comps := by
+  unfold attached at ha
+  unfold findComp at hk
+  cases hh : hostOfComp w.glyphs kid with
+  | none => simp [hh] at ha
+  | some p =>
+    rw [hh] at hk
+    simp only at hk
+    unfold hostOfComp at hh
+    have hm := List.mem_of_find?_eq_some hh
+    refine ⟨p.1, p.2, AL.get?_of_mem_nodup hn hm, ?_⟩
+    exact List.mem_of_find?_eq_some hk
+
+end ViewFrame
+
+/-! ### coverage facts -/
+
+theorem cov_mem {T : Tables} (h : Coverage T = true) {b : Bool} (hb : b ∈ covList T) : b = true := by
+  unfold Coverage at h
+  simpa using List.all_eq_true.mp h b hb
+
+theorem cov_glyphOutline {T : Tables} (h : Coverage T = true) {m : String} (hm : m ∈ glyphOutlineMethods) :
+    hitsAll T "Glyph" (T.postsOf "Glyph" m) = true ∧ relays (T.postsOf "Glyph" m) = true := by
+  have h1 : glyphOutlineMethods.all (covGlyphOutline T) = true := cov_mem h (by simp [covList])
+  have := List.all_eq_true.mp h1 m hm
+  simpa [covGlyphOutline] using this
+
+theorem cov_compCallback {T : Tables} (h : Coverage T = true) {cb : String} (hm : cb ∈ compCallbacks) :
+    (T.factoriesOf "Component").all (fun p => (T.postsOf "Component" cb).any fun n => p.2.hit n) = true ∧
+    (T.postsOf "Component" cb).contains "Component.BaseGlyphDataChanged" = true := by
+  have h1 : compCallbacks.all (covCompCallback T) = true := cov_mem h (by simp [covList])
+  have := List.all_eq_true.mp h1 cb hm
+  simpa [covCompCallback] using this
+
+theorem mem_facsOf_builtin {T : Tables} {regs : List (String × String × Destr)} {cls : String} {p : String × Destr}
+    (h : p ∈ T.factoriesOf cls) : p ∈ facsOf T regs cls := by
+  unfold facsOf; exact List.mem_append_left _ h
+
+/-- a registered name is destroyed by some notification of a list that `hitsAll` -/
+theorem hits_of_hitsAll {T : Tables} {regs : List (String × String × Destr)} {cls : String} {ns : List String}
+    {nm : String} (hreg : ∀ r, r ∈ regs → r.2.2 = T.defaultDestr r.1) (hall : hitsAll T cls ns = true)
+    (hnm : (facsOf T regs cls).any (fun p => p.1 = nm) = true) :
+    ∃ d y, (nm, d) ∈ facsOf T regs cls ∧ y ∈ ns ∧ d.hit y = true := by
+  rw [List.any_eq_true] at hnm
+  obtain ⟨p, hp, hpn⟩ := hnm
+  simp only [decide_eq_true_eq] at hpn
+  subst hpn
+  unfold hitsAll at hall
+  rw [Bool.and_eq_true] at hall
+  have hp' := hp
+  unfold facsOf at hp'
+  rw [List.mem_append] at hp'
+  rcases hp' with hb | hr
+  · have := List.all_eq_true.mp hall.1 p hb
+    rw [List.any_eq_true] at this
+    obtain ⟨y, hy, hh⟩ := this
+    exact ⟨p.2, y, hp, hy, hh⟩
+  · rw [List.mem_filterMap] at hr
+    obtain ⟨r, hr1, hr2⟩ := hr
+    by_cases e : r.1 = cls
+    · simp only [e, if_true, Option.some.injEq] at hr2
+      have hd : p.2 = T.defaultDestr cls := by rw [← hr2]; simp only; rw [hreg r hr1, e]
+      have := hall.2
+      unfold hitsReg at this
+      rw [List.any_eq_true] at this
+      obtain ⟨y, hy, hh⟩ := this
+      exact ⟨p.2, y, hp, hy, by rw [hd]; exact hh⟩
+    · simp [e] at hr2
+
+/-- a name registered at run time (not a class-level one) is destroyed by a list that `hitsReg` -/
+theorem hits_of_hitsReg {T : Tables} {regs : List (String × String × Destr)} {cls : String} {ns : List String}
+    {nm : String} (hreg : ∀ r, r ∈ regs → r.2.2 = T.defaultDestr r.1) (hall : hitsReg T cls ns = true)
+    (hnm : (facsOf T regs cls).any (fun p => p.1 = nm) = true) (hnb : isBuiltin T cls nm = false) :
+    ∃ d y, (nm, d) ∈ facsOf T regs cls ∧ y ∈ ns ∧ d.hit y = true := by
+  rw [List.any_eq_true] at hnm
+  obtain ⟨p, hp, hpn⟩ := hnm
+  simp only [decide_eq_true_eq] at hpn
+  subst hpn
+  have hp' := hp
+  unfold facsOf at hp'
+  rw [List.mem_append] at hp'
+  rcases hp' with hb | hr
+  · exfalso
+    unfold isBuiltin at hnb
+    have : (T.factoriesOf cls).any (fun q => q.1 = p.1) = true := by
+      rw [List.any_eq_true]; exact ⟨p, hb, by simp⟩
+    rw [this] at hnb; exact Bool.noConfusion hnb
+  · rw [List.mem_filterMap] at hr
+    obtain ⟨r, hr1, hr2⟩ := hr
+    by_cases e : r.1 = cls
+    · simp only [e, if_true, Option.some.injEq] at hr2
+      have hd : p.2 = T.defaultDestr cls := by rw [← hr2]; simp only; rw [hreg r hr1, e]
+      unfold hitsReg at hall
+      rw [List.any_eq_true] at hall
+      obtain ⟨y, hy, hh⟩ := hall
+      exact ⟨p.2, y, hp, hy, by rw [hd]; exact hh⟩
+    · simp [e] at hr2
+
+section Survivors
+variable {V : Type}
+
+theorem not_survivor {T : Tables} {w : World V} {ds : List (Obj × String)} {o : Obj} {nm : String} {sk : SubKey}
+    {v : V} (hs : (cacheOf (applyDeliv T w ds) o).get? nm sk = some v) {d : Destr} {y : String}
+    (hd : (nm, d) ∈ facsOf T w.regs o.cls) (hy : (o, y) ∈ ds) (hh : d.hit y = true) : False := by
+  have := (get?_applyDeliv T w ds o nm sk v hs).2 y hy d hd
+  rw [hh] at this; exact Bool.noConfusion this
+
+end Survivors
+
 end Repr
 end DefconModel
